@@ -25,7 +25,7 @@ P = {
          "Trusts the reference model. Payload sizes, positions, queue names (1 byte, longer than a block, empty, multi-byte, NUL/slash/newline) from the menu; long-history seeds (aged log, 130-record queue, wrapped ring buffer).", "5 C05"),
  "C06": ("SEQ", "bounded-exhaustive op sequences with frame-event attribution vs. real directory listing",
          "After every truncate/delete_queue/open of every explored history (three policies) the directory listing is compared with the harness's own attribution of retained records to files (from frame events, independent of the implementation's reference counts); the same comparison is made after recovery from every crash point of the last op of every history of a crash profile (open after a crash).",
-         "Two genuine defects are recorded as known findings (D4, D9), each with an exact predicate computed from the harness's own frame events; every other excess file fails the check.", "5 C06, 6 D4 D9"),
+         "Two genuine defects found by this check (D4, D9) were repaired in /repo (fix: commits 386273a, 542df13); any excess file fails the check.", "5 C06, 6 D4 D9"),
  "C07": ("FRAME", "exhaustive grid (start offset x entry length x follower lengths) over the real record writer/reader on in-memory blocks, plus through-files sequences",
          "In the 64-byte-block geometry the whole cube of start offsets, entry lengths up to several blocks and followers is enumerated and round-tripped through the real RecordWriter/RecordReader and cross-checked against an independent frame encoder; boundary grid in the real geometry; through-file sequences at every file_end-k.",
          "Geometry reduction: same code, two constants changed; boundary grid in the real geometry.", "4.5, 5 C07"),
